@@ -11,6 +11,7 @@ import QbeeModel.Model.ExprC
 import QbeeModel.Model.FloatInst
 import QbeeModel.Model.ExprSem
 import QbeeModel.Model.Fold
+import QbeeModel.Model.Asm
 /-
   Line-protocol driver for the executable models.  One request per line, one
   answer per line.  Unknown or malformed requests answer `bad-op`; the models
@@ -416,6 +417,37 @@ def handleFold : List String → Option String
       pure (match Fold.phConvInt d a with | some n => s!"some {n}" | none => "none")
   | _ => none
 
+/-- symbolic stream: `I <opcode> <nargs> (B <hex> | L <cp>)…` | `K <cp>` | `M <kind>` -/
+partial def parseStream : List String → Option (List Asm.SI)
+  | [] => some []
+  | "K" :: n :: r => do let n ← decStr n; let rest ← parseStream r; pure (.label n.toStr :: rest)
+  | "M" :: k :: r => do let k ← k.toNat?; let rest ← parseStream r; pure (.marker k :: rest)
+  | "I" :: op :: n :: r => do
+      let op ← op.toNat?; let n ← n.toNat?
+      let rec takeArgs : Nat → List String → Option (List Asm.Arg × List String)
+        | 0, r => some ([], r)
+        | k + 1, "B" :: h :: r => do
+            let bs ← hexBytes (if h = "-" then [] else h.toList)
+            let (as, r') ← takeArgs k r
+            pure (.bytes bs :: as, r')
+        | k + 1, "L" :: l :: r => do
+            let l ← decStr l
+            let (as, r') ← takeArgs k r
+            pure (.lbl l.toStr :: as, r')
+        | _, _ => none
+      let (args, r') ← takeArgs n r
+      let rest ← parseStream r'
+      pure (.ins op args :: rest)
+  | _ => none
+
+def handleAsm (r : List String) : String :=
+  match parseStream r with
+  | none => "bad-op"
+  | some s =>
+    let code := match Asm.assemble s with | some bs => toHex bs | none => "keyerror"
+    let erased := match Asm.assemble (Asm.erase s) with | some bs => toHex bs | none => "keyerror"
+    code ++ " " ++ erased ++ " | " ++ " ".intercalate ((Asm.markerOffsets s 0).map fun (k, o) => s!"{k}:{o}")
+
 def handle (toks : List String) : String :=
   match toks with
   | "print" :: r =>
@@ -505,6 +537,7 @@ def handle (toks : List String) : String :=
   | "arith" :: r => (handleArith r).getD "bad-op"
   | "refeval" :: r => handleRefEval r
   | "fold" :: r => (handleFold r).getD "bad-op"
+  | "asm" :: r => handleAsm r
   | ["uscan", f] =>
     match decStr f with
     | some f => match Using.scanFmt f with
